@@ -97,6 +97,13 @@ func c13(r *Run) {
 		r.mustPass("C13.R1:onAccept:untrack-when-closed", "when that re-check finds the connection closed it is removed from the map (nobody else will)", onAccept, store, starts,
 			func(i ssa.Instruction) bool { return isMapOp(i, "Delete", "connections") }, nil, nil, "connections.Delete on every path from the closed edge")
 	}
+	// after the store onAccept goes on without untracking only on an edge where it observed the connection ACTIVE
+	{
+		ss := &Search{Fn: onAccept, Stop: func(i ssa.Instruction) bool { return isMapOp(i, "Delete", "connections") }, CutEdge: cutOn(activeFact(ro))}
+		wit := ss.Find([]Start{After(store)}, nil, true)
+		r.Visited += ss.Visited
+		r.obW("C13.R1:onAccept:stays-tracked-only-if-active", "a stored connection stays tracked only on an edge where onAccept observed it active after the store: any close (by the peer, by OnPrepare's user code, ...) that happened before the untrack callback existed is untracked here", onAccept, store, wit, "connections.Delete, or an active observation, on every path after the Store")
+	}
 	// a connection that OnPrepare closed is not tracked
 	r.guarded("C13.R1:track-only-active", "a connection closed during OnPrepare is not tracked", onAccept, store, callResultAtom(ro.isActive, true), nil, "Store guarded by IsActive()")
 	// onConnect is fired for tracked connections
